@@ -241,7 +241,7 @@ ZC = (0.3 - 2j)               # fixed complex coefficient of the BPF alphabets
 #                    precision for a low-precision record; 0.5*e_k itself is exact in every one of them)
 #   class 'unsigned' / 'full-scale-int': integer records whose edge extension 2*x[0]-x[k] leaves the dtype.  The property
 #                    (linearity: F(x) for integer x == F of the same values as floats) is asserted under its own key
-#                    {dev}:integer-input-wraparound:{class}  (finding C11_1; MCX_C11_SKIP_WRAP=1 drops these kinds)
+#                    {dev}:integer-input-wraparound:{class}  (finding C11_1, fixed in /repo 682ccba; the members always run)
 DT = {
     'bool': (np.bool_, 1, 'exact'), 'i8': (np.int8, 3, 'exact'), 'i16': (np.int16, 3, 'exact'), 'i32': (np.int32, 3, 'exact'),
     'i64': (np.int64, 3, 'exact'), 'f16': (np.float16, 0.5, 'lowprec'), 'f32': (np.float32, 0.5, 'lowprec'),
@@ -249,8 +249,6 @@ DT = {
     'u8': (np.uint8, 3, 'unsigned'), 'u16': (np.uint16, 3, 'unsigned'), 'u32': (np.uint32, 3, 'unsigned'), 'u64': (np.uint64, 3, 'unsigned'),
     'i8-fs': (np.int8, 100, 'full-scale-int'), 'i16-fs': (np.int16, 30000, 'full-scale-int'),
 }
-if os.environ.get('MCX_C11_SKIP_WRAP'):
-    DT = {k: v for k, v in DT.items() if v[2] in ('exact', 'lowprec')}
 
 
 def dt_tol(name):
